@@ -883,6 +883,7 @@ class Executor:
         if key in self._impl_cache:
             return self._impl_cache[key]
         best = (None, None)
+        ty = strip_ref(ty)
         thead = ty_head_args(ty)[0]
         for b in reversed(self.P.by_method.get(meth, [])):
             if "<impl at" not in b.name or "{closure" in b.name:
